@@ -91,6 +91,49 @@ func genLogger(o *out) {
 	o.line("(* SetPrefix and Output happen between l.mtx.Lock() and l.mtx.Unlock() *)")
 	o.line("Definition simple_locked : list bool := [%s].", strings.Join(locked, "; "))
 
+	// NewSimpleLogger: `return &SimpleLogger{logger: logger, level: level}` -- does the constructor read the wrapped
+	// log.Logger's current prefix (state that other SimpleLoggers over the same log.Logger leave behind)?
+	ctor := sl.method("", "NewSimpleLogger")
+	if len(ctor.Body.List) != 1 {
+		die("NewSimpleLogger: expected a single return statement")
+	}
+	cret, ok := ctor.Body.List[0].(*ast.ReturnStmt)
+	if !ok || len(cret.Results) != 1 {
+		die("NewSimpleLogger: expected a single return statement")
+	}
+	cu, ok := unparen(cret.Results[0]).(*ast.UnaryExpr)
+	if !ok || cu.Op != token.AND {
+		die("NewSimpleLogger: expected `return &SimpleLogger{...}`")
+	}
+	clit, ok := cu.X.(*ast.CompositeLit)
+	if !ok || callName(clit.Type) != "SimpleLogger" {
+		die("NewSimpleLogger: expected `return &SimpleLogger{...}`")
+	}
+	capturesPrefix := false
+	for _, el := range clit.Elts {
+		kv, ok := el.(*ast.KeyValueExpr)
+		if !ok {
+			die("NewSimpleLogger: expected keyed fields")
+		}
+		switch callName(kv.Key) + "=" + callName(kv.Value) {
+		case "logger=logger", "level=level":
+		default:
+			// any other field: fine only if it does not look at the log.Logger's state
+			ast.Inspect(kv.Value, func(n ast.Node) bool {
+				if c, ok := n.(*ast.CallExpr); ok {
+					if strings.HasSuffix(callName(c.Fun), ".Prefix") {
+						capturesPrefix = true
+					} else {
+						die("NewSimpleLogger: unexpected call %s in field %s", callName(c.Fun), callName(kv.Key))
+					}
+				}
+				return true
+			})
+		}
+	}
+	o.line("(* NewSimpleLogger stores what logger.Prefix() returns at construction time *)")
+	o.line("Definition simple_ctor_captures_prefix : bool := %s.", coqBool(capturesPrefix))
+
 	// enabled: return level >= l.level
 	en := sl.method("SimpleLogger", "enabled")
 	if len(en.Body.List) != 1 || len(en.Type.Params.List) != 1 || len(en.Type.Params.List[0].Names) != 1 {
